@@ -35,15 +35,55 @@ func (g *G) stmts(parent *scope, u usage, n int, depth int) []string {
 }
 
 // unusedFixups emits `_ = x` for variables of the scope never read.
-func unusedFixups(sc *scope) []string {
+func (g *G) unusedFixups(sc *scope) []string {
 	var out []string
 	for _, v := range sc.vars {
 		if !v.Used {
-			out = append(out, "_ = "+v.Name)
+			out = append(out, g.observe(v)...)
 			v.Used = true
 		}
 	}
 	return out
+}
+
+// observe makes an otherwise unused variable count: in an entry function (which has the hidden
+// trace variable zt as its last result) most scalars, lengths and scalar fields are folded into the
+// trace instead of being discarded with `_ = v`, so that the value a construct computed reaches
+// the compared result even when the random program never uses it again.
+func (g *G) observe(v *Var) []string {
+	tr := ""
+	if g.fn != nil {
+		tr = g.fn.trace
+	}
+	if tr == "" || v.T == nil || v.Closure != nil || g.chance("observeskip", 25) {
+		return []string{"_ = " + v.Name}
+	}
+	fold := func(e string) string { return fmt.Sprintf("%s = %s*31 + %s", tr, tr, e) }
+	switch {
+	case v.T.K == KU64:
+		return []string{fold(v.Name)}
+	case v.T.IsInt():
+		return []string{fold("uint64(" + v.Name + ")")}
+	case v.T.K == KBool:
+		return []string{"if " + v.Name + " {", "\t" + fold("1"), "}"}
+	case v.T.K == KStr, v.T.K == KSlice && !v.Big:
+		return []string{fold("uint64(len(" + v.Name + "))")}
+	case v.T.K == KMap && v.NonNil:
+		return []string{fold("uint64(len(" + v.Name + "))")}
+	case v.T.K == KPtr && v.NonNil && v.T.Elem.IsInt():
+		return []string{fold("uint64(*" + v.Name + ")")}
+	case v.T.K == KStruct, v.T.K == KPtr && v.NonNil && v.T.Elem.K == KStruct:
+		sd := v.T.S
+		if v.T.K == KPtr {
+			sd = v.T.Elem.S
+		}
+		for _, f := range sd.Fields {
+			if f.T.IsInt() {
+				return []string{fold("uint64(" + v.Name + "." + f.Name + ")")}
+			}
+		}
+	}
+	return []string{"_ = " + v.Name}
 }
 
 // earlyExit: if c { …; return/break/continue } with no else, followed by more statements.
@@ -70,9 +110,9 @@ func (g *G) earlyExit(sc *scope, u usage, depth int) []string {
 func (g *G) tail(sc *scope, u usage, depth int) []string {
 	switch u {
 	case uLocal:
-		return unusedFixups(sc)
+		return g.unusedFixups(sc)
 	case uLoop:
-		fix := unusedFixups(sc)
+		fix := g.unusedFixups(sc)
 		switch g.pick("looptail", 5) {
 		case 0:
 			return append(fix, "continue")
@@ -99,7 +139,7 @@ func (g *G) tail(sc *scope, u usage, depth int) []string {
 		if depth > 0 && g.chance("tailif", 25) {
 			g.label("tail-if-else")
 			cond := g.boolExpr(sc, 1)
-			fix := unusedFixups(sc)
+			fix := g.unusedFixups(sc)
 			out := append(fix, "if "+cond+" {")
 			out = append(out, indentLines(g.stmts(sc, uReturn, g.pick("tin", 3), depth-1))...)
 			if len(res) > 0 || g.chance("tailelse", 60) {
@@ -115,7 +155,7 @@ func (g *G) tail(sc *scope, u usage, depth int) []string {
 			return out
 		}
 		if len(res) == 0 {
-			fix := unusedFixups(sc)
+			fix := g.unusedFixups(sc)
 			if g.chance("explicitreturn", 30) {
 				return append(fix, "return")
 			}
@@ -133,12 +173,16 @@ func (g *G) returnStmt(sc *scope, depth int) []string {
 		for _, h := range g.helpers {
 			if h != g.fn.sig && sameTypes(h.Results, res) && (!g.fn.pure || h.Pure) {
 				call := g.renderCall(sc, h, nil, depth)
-				return append(unusedFixups(sc), "return "+call)
+				return append(g.unusedFixups(sc), "return "+call)
 			}
 		}
 	}
 	parts := make([]string, len(res))
 	for i, r := range res {
+		if g.fn.trace != "" && i == len(res)-1 {
+			parts[i] = g.fn.trace
+			continue
+		}
 		// prefer returning variables in scope so that effects are observable
 		if g.chance("retvar", 75) {
 			parts[i] = g.nonConst(sc, r, 0)
@@ -147,7 +191,7 @@ func (g *G) returnStmt(sc *scope, depth int) []string {
 			parts[i] = g.exprTyped(sc, r, min(depth, 2), true)
 		}
 	}
-	return append(unusedFixups(sc), "return "+strings.Join(parts, ", "))
+	return append(g.unusedFixups(sc), "return "+strings.Join(parts, ", "))
 }
 
 func sameTypes(a, b []*Ty) bool {
@@ -636,7 +680,7 @@ func (g *G) rangeStmt(sc *scope, depth int) []string {
 	}
 	inner.vars = vars
 	body := append(pre, g.stmts(inner, uLocal, 1+g.pick("rangen", 2), depth-1)...)
-	body = append(body, unusedFixups(inner)...)
+	body = append(body, g.unusedFixups(inner)...)
 	out := []string{hdr}
 	out = append(out, indentLines(body)...)
 	return append(out, "}")
